@@ -211,6 +211,11 @@ def gen_async_program(rng, max_tasks=6):
                 # used by several tasks whose own current actions differ)
                 out.append({"k": "rootctx", "nid": nid(), "via": rng.choice(["context", "context", "run"]),
                             "children": [{"k": "msg", "nid": nid()}, {"k": "await", "nid": nid()}, {"k": "msg", "nid": nid()}]})
+            elif r < 0.6 and budget[0] >= 1:
+                # a task that is cancelled while it waits inside an action of its own
+                budget[0] -= 1
+                out.append({"k": "cancel", "nid": nid(), "act": nid(), "before": [{"k": "msg", "nid": nid()} for _ in range(rng.randint(0, 2))],
+                            "park": nid(), "own_park": nid() if rng.random() < 0.5 else None, "never": nid()})
             elif r < 0.8 and adepth < 5:
                 n = {"k": "act", "nid": nid(), "children": body(adepth + 1, sdepth), "outcome": "ok"}
                 if rng.random() < 0.25:
@@ -330,9 +335,49 @@ class AsyncInterp(object):
                 else:
                     gt["status"] = "failed"
                     gt["end"] = {"exception": excs.qualname(type(raised)), "reason": str(raised)}
+            elif k == "cancel":
+                await self.cancelled_task(node, gt_children, cur, strand)
             else:
                 await self.spawn(node, gt_children, cur, strand)
             self.probe(cur, "after node %s" % node["nid"])
+
+    async def cancelled_task(self, node, gt_children, cur, strand):
+        """Start a task that enters an action and waits there; cancel it; the action ends failed with CancelledError in the task's
+        own context, and the canceller's context is untouched."""
+        loop = asyncio.get_running_loop()
+        entered = loop.create_future()
+        sub = "%s/%s.c" % (strand, node["nid"])
+        gt = {"kind": "action", "type": "co:cancelled", "nid": node["act"], "start": {"nid": node["act"]}, "status": "started", "end": None,
+              "children": [], "strand": sub}
+
+        async def victim():
+            self.probe(cur, "first probe in the task that will be cancelled (node %s)" % node["nid"])
+            try:
+                with start_action(action_type="co:cancelled", nid=node["act"]) as a:
+                    (self.forest if cur is None else gt_children).append(gt)
+                    for ch in node["before"]:
+                        log_message(message_type="co:m", nid=ch["nid"])
+                        gt["children"].append({"kind": "message", "type": "co:m", "fields": {"nid": ch["nid"]}, "nid": ch["nid"], "strand": sub})
+                    entered.set_result(None)
+                    await loop.create_future()  # waits for something that never comes: only the cancellation ends it
+                    log_message(message_type="co:m", nid=node["never"])  # never reached
+                    self.viol("the cancelled task went on after its await")
+            finally:
+                self.probe(cur, "in the cancelled task after its action's block was left (node %s)" % node["nid"])
+        t = loop.create_task(victim())
+        await entered
+        if node["own_park"] is not None:
+            await self.gate.point(node["own_park"])
+        self.probe(cur, "in the canceller before cancel() (node %s)" % node["nid"])
+        t.cancel()
+        try:
+            await t
+            self.viol("awaiting the cancelled task did not raise CancelledError")
+        except asyncio.CancelledError:
+            pass
+        gt["status"] = "failed"
+        gt["end"] = {"exception": "asyncio.exceptions.CancelledError", "reason": ""}
+        self.probe(cur, "in the canceller after the cancelled task ended (node %s)" % node["nid"])
 
     async def spawn(self, node, gt_children, cur, strand):
         how = node["how"]
@@ -372,6 +417,8 @@ async def _drive(prog, gate, it):
             idle = 0
             i = gate.rng.randrange(len(gate.parked))
             nid, fut = gate.parked.pop(i)
+            if fut.done():
+                continue  # (its task was cancelled while parked here)
             gate.order.append(nid)
             fut.set_result(None)
         else:
